@@ -79,6 +79,12 @@ CLAIMED = {
             "decomposition must be ~0 when no tail is discarded, at most the sum of discarded tails and at least the largest single "
             "tail (using the returned ranks), and returned ranks never exceed requested ones. Sampled.",
             "Trusted: numpy.linalg.svd (float64) of explicit unfoldings; the Tucker/TT quasi-optimality theorems.", "DESIGN.md §2 C09"),
+    "C10": ("runtime postcondition monitor (>= 0, no NaN, no slack) on returned factors/weights/core + live monitors on the inner NNLS solvers",
+            "Seeded configurations of the six non-negative algorithms on signed / non-negative / sparse / integer / all-negative tensors "
+            "with SVD, random and non-negative user initialisations, normalisation, sparsity, partial non-negativity and iteration "
+            "caps 0..12; every declared array of every returned object is checked, and hals_nnls / fista / active_set_nnls / "
+            "make_svd_non_negative are wrapped (identity re-binding) so their returns are checked while those runs execute.",
+            "No slack: -1e-300 or NaN is a violation. PARAFAC2 mode 1 exempt as documented.", "DESIGN.md §2 C10"),
 }
 
 PENDING_REASON = "check not built yet in this session; see DESIGN.md §2 for the planned monitor"
